@@ -13,7 +13,8 @@
      - an error-kind point (fresh error value / error of an SDK keeper handed upwards) fails the blocker only
        if every caller hands it upwards ([fp_live]) AND the module method returns it to the module manager
        ([b_propagates]); otherwise it is logged/dropped and the blocker continues;
-     - a panic-kind point (panic, Must*, Quo, NewCoin, Coins.Sub, index) cannot fire if its syntactic guard is
+     - a panic-kind point (panic, Must*, Quo, NewCoin, Coins.Sub, index, and KExtPanic: a call into the SDK distribution
+       keeper that reaches explicit panic sites there) cannot fire if its syntactic guard is
        present in the same function ([fp_guarded]); if EVERY path to it passes a `defer recover()` frame
        ([fp_recovered]) the panic becomes an error at that frame, which all such frames' callers log;
        otherwise it aborts FinalizeBlock;
@@ -30,7 +31,9 @@ Import ListNotations.
 Open Scope string_scope.
 
 Inductive phase := PBegin | PEnd | PEpochAfter | PEpochBefore.
-Inductive pkind := KPanic | KMust | KQuo | KNewCoin | KCoinSub | KIndex | KCodec | KErr | KExtErr.
+Inductive pkind := KPanic | KMust | KQuo | KNewCoin | KCoinSub | KIndex | KCodec | KErr | KExtErr
+  | KExtPanic. (* a call into the cosmos-sdk distribution keeper that reaches [fp_count] explicit panic sites INSIDE the SDK
+                  package (tools/gotrans/blockers_ext.go); a panic kind: nothing in x/ guards it syntactically *)
 
 Record fpoint := mkPoint {
   fp_fn : string;         (* package.Receiver.Function *)
@@ -57,7 +60,7 @@ Definition phase_eqb (a b : phase) : bool :=
 Definition kind_eqb (a b : pkind) : bool :=
   match a, b with
   | KPanic, KPanic | KMust, KMust | KQuo, KQuo | KNewCoin, KNewCoin | KCoinSub, KCoinSub | KIndex, KIndex
-  | KCodec, KCodec | KErr, KErr | KExtErr, KExtErr => true
+  | KCodec, KCodec | KErr, KErr | KExtErr, KExtErr | KExtPanic, KExtPanic => true
   | _, _ => false end.
 
 Definition is_err_kind (k : pkind) : bool := match k with KErr | KExtErr => true | _ => false end.
@@ -169,6 +172,22 @@ Definition reviewed : list review := [
   R "estaking" PEnd "x/estaking/keeper.Keeper.UpdateStakersRewards" KQuo "totalBlocksPerYear" 3 RParam;
   R "estaking" PEnd "x/estaking/keeper.Keeper.WithdrawAllRewards" KMust "sdk.MustAccAddressFromBech32" 1 RStoredAddr;
   R "estaking" PEnd "x/estaking/types.ElysStaked.GetAccountAddress" KMust "sdk.MustAccAddressFromBech32" 1 RStoredAddr;
+  (* EXTERNAL panic sites (sanity checks of the SDK's distribution keeper) reached from the estaking end blocker outside any
+     recover frame: BurnEdenBIfElysStakingReduced -> BurnEdenBFromElysUnstaking -> WithdrawAllRewards ->
+     distrKeeper.WithdrawDelegationRewards (CalculateDelegationRewards: "calculated final stake ... greater than current
+     stake", negative rewards, period order; reference counts), and -> commitment BurnEdenBoost -> commitment hooks ->
+     estaking BeforeEdenBCommitChange / CommitmentChanged -> staking hooks -> distribution Before*/After* hooks
+     (withdrawDelegationRewards / initializeDelegation). What the Elys code relies on, NOT modelled (class RSdk = assumption):
+     distribution's recorded starting stake of every (delegator, validator) pair, real or virtual (Eden / EdenB validator =
+     committed amount), never exceeds the current stake, i.e. every change of a delegation or of a committed Eden/EdenB amount
+     is bracketed by BeforeDelegationSharesModified / AfterDelegationModified and the After hook reads the amount that is
+     ALREADY STORED (commitment SetCommitments precedes CommitmentChanged). Seeded change C18-3 breaks exactly this order;
+     it is caught by the correspondence run (staking histories of harness/c18_stake_test.go), not by this table. The maxima
+     are the numbers of panic sites in cosmos-sdk v0.50.9 x/distribution/keeper: an upgrade that adds one needs a re-review. *)
+  R "estaking" PEnd "x/estaking/keeper.Keeper.WithdrawAllRewards" KExtPanic "k.distrKeeper.WithdrawDelegationRewards" 8 RSdk;
+  R "estaking" PEnd "x/estaking/keeper.Keeper.BeforeEdenBCommitChange" KExtPanic "k.Keeper.Hooks().BeforeDelegationCreated" 1 RSdk;
+  R "estaking" PEnd "x/estaking/keeper.Keeper.BeforeEdenBCommitChange" KExtPanic "k.Keeper.Hooks().BeforeDelegationSharesModified" 7 RSdk;
+  R "estaking" PEnd "x/estaking/keeper.Keeper.CommitmentChanged" KExtPanic "k.Keeper.Hooks().AfterDelegationModified" 1 RSdk;
 
   (* epochs hooks: an error here is a panic in x/epochs BeginBlocker *)
   R "burner" PEpochAfter "x/burner/keeper.Keeper.AfterEpochEnd" KPanic "err" 1 RStructural;
@@ -246,8 +265,8 @@ Record env := mkEnv {
   e_ts_first : Z; e_ts_last : Z;
   e_tvl : Z; e_multiplier : Z }.
 
-(* x/parameter Params.Validate: TotalBlocksPerYear <= 0 is rejected (uint64, so: zero) *)
-Definition param_validate (e : env) : bool := (0 <? e_tbpy e)%Z && (e_tbpy e <? 2 ^ 64)%Z.
+(* x/parameter Params.Validate: TotalBlocksPerYear = 0 and, since fix: f62637f, values above MaxInt64 are rejected *)
+Definition param_validate (e : env) : bool := (0 <? e_tbpy e)%Z && (e_tbpy e <? 2 ^ 63)%Z.
 (* the blockers use int64(TotalBlocksPerYear) *)
 Definition to_int64 (z : Z) : Z := if (z <? 2 ^ 63)%Z then z else (z - 2 ^ 64)%Z.
 Definition guard_tbpy (e : env) : bool := negb (to_int64 (e_tbpy e) =? 0)%Z.
